@@ -10,7 +10,7 @@
 From Coq Require Import List ZArith Bool.
 From Coq Require Import Reals.
 From RV Require Import Gen.Schemes C01.FreeAlg C01.Model C01.ProofsSaba C01.ProofsEos C01.ProofsJanus
-  C01.ProofsWhfast C01.ProofsWhfast17 C01.FreeAlgX C01.ModelX C01.FreeAlg3 C01.Tables C01.ProofsX C01.ProofsX17 C01.ProofsTables C01.JerkDeriv C01.OdeLoop C01.OdeLoopProofs Common.Num Common.RealNum C01.Jerk C01.JerkProofs.
+  C01.ProofsWhfast C01.ProofsWhfast17 C01.FreeAlgX C01.ModelX C01.FreeAlg3 C01.Tables C01.ProofsX C01.ProofsX17 C01.ProofsTables C01.JerkDeriv C01.OdeLoop C01.OdeLoopProofs C01.StepCtl C01.StepCtlProofs C01.Switch Common.Num Common.RealNum C01.Jerk C01.JerkProofs.
 Import ListNotations.
 Open Scope Z_scope.
 
@@ -198,6 +198,73 @@ Theorem C01_ode_substeps_end_at_nbody_time : forall oracle (rt dtl prop0 : R) tr
   Forall (good_call rt fwd) tr.
 Proof. exact ode_run_ends_at_nbody_time. Qed.
 Print Assumptions C01_ode_substeps_end_at_nbody_time.
+
+(* ---------------- round 3 *)
+(* LAZY variants (WHFast LAZY kernel, SABA CL 0x200..0x203): p += tau F(q + sigma F(q)) [- tau F(q)], constants regenerated.
+   The leading, symplectic part exp(tau B + (tau sigma/2) [B,[A,B]]) of each lazy scheme IS the corresponding modified-kick
+   word (exact equality of words), so C01_saba_cm_order / C01_whfast_modifiedkick_order apply to it verbatim; the remainder
+   ~ tau sigma^2 (eps^3 dt^5) is not a Hamiltonian flow, has no representative in the algebra, and lies beyond the gradings
+   (..,..,4); its first-order Taylor term is C01_jerk_is_directional_derivative, the O(sigma^2) bound is NOT proved. *)
+Theorem C01_lazy_leading_part_is_modified_kick :
+  lazy_divisions_exact = true /\ whfast_lazy_kernel_leading = mk_kernel /\
+  saba_cl_word_leading 0 = saba_cm_word 0 /\ saba_cl_word_leading 1 = saba_cm_word 1 /\
+  saba_cl_word_leading 2 = saba_cm_word 2 /\ saba_cl_word_leading 3 = saba_cm_word 3.
+Proof. exact lazy_leading. Qed.
+Print Assumptions C01_lazy_leading_part_is_modified_kick.
+
+(* IAS15 step-size controller (model bit-exact with the library on recorded decisions), forward direction, min_dt >= 0:
+   accepted => dt/4 <= dt_next <= 4 dt;  rejected => 0 < dt_retry < dt/4;  accepted iff max(candidate, min_dt) >= dt/4;
+   the next step is monotone in the candidate;  with an exact 7th root the candidate is non-increasing in the error estimate,
+   an accepted step has estimate <= 16384 epsilon, and an estimate of 2 epsilon IS accepted (no "estimate <= epsilon" rule). *)
+Theorem C01_ias15_controller_contract :
+  (forall raw done_ mn d, 0 < done_ -> 0 < raw -> 0 <= mn -> tailR raw done_ mn = (true, d) -> done_ / 4 <= d <= 4 * done_)%R /\
+  (forall raw done_ mn d, 0 < done_ -> 0 < raw -> 0 <= mn -> tailR raw done_ mn = (false, d) -> 0 < d < done_ / 4)%R /\
+  (forall raw done_ mn, 0 < done_ -> 0 < raw -> 0 <= mn -> (fst (tailR raw done_ mn) = true <-> done_ / 4 <= Rmax raw mn))%R /\
+  (forall raw1 raw2 done_ mn, 0 < done_ -> 0 < raw1 <= raw2 -> 0 <= mn ->
+     snd (tailR raw1 done_ mn) <= snd (tailR raw2 done_ mn) /\ (fst (tailR raw1 done_ mn) = true -> fst (tailR raw2 done_ mn) = true))%R.
+Proof.
+  split; [intros raw done_ mn d H1 H2 H3; exact (ias15_accept_ratio raw done_ mn H1 H2 H3 d)|].
+  split; [intros raw done_ mn d H1 H2 H3; exact (ias15_reject_smaller raw done_ mn H1 H2 H3 d)|].
+  split; [exact ias15_accept_iff | exact ias15_tail_monotone].
+Qed.
+Print Assumptions C01_ias15_controller_contract.
+
+Theorem C01_ias15_error_rule : forall rt7 : R -> R,
+  (forall x, 0 < x -> 0 < rt7 x)%R -> (forall x, 0 < x -> rt7 x ^ 7 = x)%R ->
+  (forall eps err1 err2 done_, 0 < eps -> 0 < done_ -> 0 < err1 <= err2 -> raw01 rt7 eps err2 done_ <= raw01 rt7 eps err1 done_)%R /\
+  (forall eps err done_, 0 < eps -> 0 < done_ -> 0 < err -> fst (tailR (raw01 rt7 eps err done_) done_ 0) = true -> err <= 16384 * eps)%R /\
+  (forall eps done_, 0 < eps -> 0 < done_ -> fst (tailR (raw01 rt7 eps (2 * eps) done_) done_ 0) = true)%R.
+Proof.
+  intros rt7 Hp Hw. split; [exact (ias15_candidate_antitone rt7 Hp Hw)|].
+  split; [exact (ias15_accept_error_bound rt7 Hp Hw) | exact (ias15_accepts_above_epsilon rt7 Hp Hw)].
+Qed.
+Print Assumptions C01_ias15_error_rule.
+
+(* BS controller: the optimal-step factor lies in [power/4, 1/power], is non-increasing in pow(error/0.65, exp), is < 0.94 when
+   that power exceeds 1 (scaled error > 1), and every accepting branch of the order-control switch requires scaled error <= 1 *)
+Theorem C01_bs_controller_contract :
+  (forall pe p3, 0 < p3 <= 1 -> 0 < pe -> p3 / 4 <= facR pe p3 <= 1 / p3)%R /\
+  (forall pe1 pe2 p3, 0 < p3 -> 0 < pe1 <= pe2 -> facR pe2 p3 <= facR pe1 p3)%R /\
+  (forall pe p3, 0 < p3 <= 1 -> 1 < pe -> facR pe p3 < 94 / 100)%R /\
+  (forall d error ratio2 tg pr fl, bs_decide RNum d error ratio2 tg pr fl = (false, false) -> error <= 1)%R.
+Proof. exact (conj bs_fac_bounds (conj bs_fac_antitone (conj bs_fac_reduces bs_accept_only_below_tolerance))). Qed.
+Print Assumptions C01_bs_controller_contract.
+
+(* the controller constants these contracts are stated for are those of the current source *)
+Theorem C01_controller_constants :
+  ias15_safety_factor = (1, 4) /\ bs_constants = [(13, 20); (47, 50); (1, 50); (4, 1); (4, 5); (9, 10); (1, 2)].
+Proof. exact controller_constants_pinned. Qed.
+Print Assumptions C01_controller_constants.
+
+(* MERCURIUS changeover / TRACE switching: for every changeover value the kick part and the encounter part of each pair force
+   add up to the Newtonian one (weights regenerated from gravity.c); the kick-first hybrid word I(1/2) J(1/2) K(1) J(1/2) I(1/2)
+   is palindromic, of order 2 against exp(A'+B'+J), not 3, and deferred synchronisation is exact *)
+Theorem C01_hybrid_switching :
+  (forall G L r : R, r <> 0%R -> (pair_prefactor RNum mercurius_w_kick G L r + pair_prefactor RNum mercurius_w_encounter G L r = G / (r * r * r))%R) /\
+  (forall G K r : R, r <> 0%R -> (pair_prefactor RNum trace_w_interaction G K r + pair_prefactor RNum trace_w_kepler G K r = G / (r * r * r))%R) /\
+  hybrid_ok = true.
+Proof. exact (conj mercurius_split_is_exact (conj trace_split_is_exact hybrid)). Qed.
+Print Assumptions C01_hybrid_switching.
 
 (* Non-vacuity: the decision procedure rejects wrong claims (leapfrog of order 4; SABA2 of grading (6,2)),
    and the lists quantified over are the concrete non-empty lists of types. *)
